@@ -19,6 +19,7 @@ import Driver.ElasticDrv
 import Driver.CtxDrv
 import Driver.JoinDrv
 import Driver.PlaceDrv
+import Driver.LifeDrv
 /-! `driver <model>`: reads harness output (cases) on stdin, prints one verdict line per case. -/
 open Driver
 
@@ -45,6 +46,7 @@ def dispatch (model : String) (c : Case) : String :=
   | "ctx" => CtxDrv.runCase c
   | "join" => JoinDrv.runCase c
   | "place" => PlaceDrv.runCase c
+  | "life" => LifeDrv.runCase c
   | _ => s!"case {c.id} reject 0 unknown-model-{model}"
 
 def main (args : List String) : IO UInt32 := do
